@@ -32,6 +32,7 @@ class Spec:
     seq: Tuple[Tuple[str, Tuple[str, ...]], ...] = ()   # "driver": commands run in order inside this one script, failures recorded not fatal
     fail_undeclared: bool = False       # the fail flag is read without declaring it as a dependency
     post: Tuple[str, ...] = ()          # dependencies requested AFTER the output was written (and redo-stamp has run)
+    redir: bool = False                 # the script redirects the stderr of its redo-ifchange calls into a file of its own
     sync: Tuple[Tuple[str, str, str], ...] = ()   # E2 only: (position start|mid|end, action wait|set, flag) -- scripts that wait for each other
 
     def subst(self, arg2: str) -> "Spec":
@@ -43,7 +44,7 @@ class Spec:
                     tuple(f(d) for d in self.ifcreate_raw),
                     f(self.fail) if self.fail else None, self.out, self.proj, self.split, self.tag, self.noise,
                     tuple((c, tuple(f(d) for d in ds)) for c, ds in self.seq), self.fail_undeclared,
-                    tuple(f(d) for d in self.post), self.sync)
+                    tuple(f(d) for d in self.post), self.redir, self.sync)
 
 
 @dataclass
@@ -79,7 +80,12 @@ def script_text(spec: Spec, variant: int, dofile: str, gates: bool = False) -> s
     # process group -- the redo processes above it included -- at that position: 0 = start, i = after the i-th
     # dependency group (Model.script_deps order; the last one is "just before the output is written"), e = after the
     # output (and redo-stamp) but before the script exits.  Inert when RV_KILL is unset.
-    L.append('rv_t="$1"; rvk() { if [ "${RV_KILL:-}" = "$rv_t:$1" ]; then kill -KILL 0; sleep 30; fi; }')
+    # RV_KILL=<target>:<pos>:p kills only the redo process that runs this script ($PPID); the orphaned script waits until
+    # that process is gone and then carries on to its end.  (The redo processes further up cannot finish before the orphan
+    # does: it has inherited the pipes whose end-of-file tells them that their job is over.)
+    L.append('rv_t="$1"; rvk() { if [ "${RV_KILL:-}" = "$rv_t:$1" ]; then kill -KILL 0; sleep 30; fi; '
+             'if [ "${RV_KILL:-}" = "$rv_t:$1:p" ]; then rv_pp=$PPID; kill -KILL $rv_pp; '
+             'while kill -0 "$rv_pp" 2>/dev/null; do sleep 0.01; done; fi; }')
     L.append('rvk 0')
     g = [0]
 
@@ -130,7 +136,8 @@ def script_text(spec: Spec, variant: int, dofile: str, gates: bool = False) -> s
 
     def ifchange(names):
         q = " ".join('"%s"' % n for n in names)
-        core = (f'redo-ifchange {q} || {{ rc=$?; echo "R $1 $rc" >> "$RV_TRACE"; exit $rc; }}')
+        rd = ' 2>>"$1.err"' if spec.redir else ""
+        core = (f'redo-ifchange {q}{rd} || {{ rc=$?; echo "R $1 $rc" >> "$RV_TRACE"; exit $rc; }}')
         if gates:
             return 'vgate n "work-end $1"; ' + core + '; vgate n "work-begin $1"; vgate p "r:$1"'
         return core
@@ -309,8 +316,8 @@ def curated() -> Dict[str, World]:
         "ifcreate-link", {"f": ["0", "1"], "u": ["0", "1"]},
         {"t.do": [S(ifcreate=["f"], deps=["u2"])], "u2.do": [S(deps=["u"])]},
         ["t", "u2"], ["t"], absent=["f"], symlinks={"f": "f.real"})
-    W["ifcreate-raw"] = World(
-        "ifcreate-raw", {"f": ["0", "1"], "u": ["0", "1"]},
+    W["ifcreate-raw"] = World(   # (the watched path may also come into existence as a directory)
+        "ifcreate-raw", {"f": ["0", "1", "<dir>"], "u": ["0", "1"]},
         {"t.do": [S(ifcreate_raw=["f"], deps=["u"])], "top.do": [S(deps=["t"], out="file")]},
         ["top", "t"], ["top", "t"], absent=["f"])
     W["always3"] = World(
@@ -363,6 +370,10 @@ def curated() -> Dict[str, World]:
         {"top.do": [S(deps=["mid"], out="append")], "mid.do": [S(deps=["s"], out="append")]},
         ["top", "mid"], ["top", "mid"],
         prefixes=[[["ifchange", ["top"]], ["edit", "s", "1"]]])
+    W["csum-append"] = World(   # a checksummed node that builds $3 by appending (C10: stale temporary output + redo-stamp)
+        "csum-append", {"s": V3},
+        {"top.do": [S(deps=["mid"])], "mid.do": [S(kind="csum", deps=["s"], out="append", proj=True)]},
+        ["top", "mid"], ["top", "mid"])
     W["fail"] = World(
         "fail", {"s": ["0", "1"], "flag": ["0", "1"]},
         {"top.do": [S(deps=["m", "h"])], "m.do": [S(deps=["s"], fail="flag")], "h.do": [S(deps=["s"], out="file")]},
